@@ -265,6 +265,7 @@ type runResult struct {
 	Rows    []CRow
 	Fetches []int // rows of every non-nil output, in Fetch order
 	Err     string
+	Cols    []string // columns of the outputs (union, timestamp excluded), in order of first appearance
 }
 
 // sizes -> cumulative ends
@@ -318,6 +319,25 @@ func runChain(spl string, t *Table, sizes []int, eofWith bool) (res runResult) {
 			}
 			res.Rows = append(res.Rows, rs...)
 			res.Fetches = append(res.Fetches, len(rs))
+			if cols, cerr := q.GetColumns(); cerr == nil {
+				names := []string{}
+				for c := range cols {
+					names = append(names, c)
+				}
+				sort.Strings(names)
+			cols:
+				for _, c := range names {
+					if c == tsCol {
+						continue
+					}
+					for _, have := range res.Cols {
+						if have == c {
+							continue cols
+						}
+					}
+					res.Cols = append(res.Cols, c)
+				}
+			}
 		}
 		if ferr == io.EOF {
 			return
@@ -963,6 +983,10 @@ func main() {
 	if len(os.Args) >= 2 && os.Args[1] == "probe" {
 		config.InitializeTestingConfig(os.TempDir() + "/C06_probe/")
 		config.SetNewQueryPipelineEnabled(true)
+		if os.Getenv("C06_REWPROBE") != "" {
+			rewoundProbeMain(os.Args[2:])
+			return
+		}
 		if os.Getenv("C06_SORTPROBE") != "" {
 			sortProbeMain(os.Args[2:])
 			return
@@ -1251,6 +1275,7 @@ func main() {
 		files[k].flush(sum, cfg.Out)
 	}
 
+	runRewoundStream(cfg, sum, vhlib.NewRng(cfg.Seed*7919+606), tables)
 	runChild("planned", cfg, sum, 3)
 	runChild("missingcol=eval_missing_column", cfg, sum, 1)
 	runChild("missingcol=sort_missing_column", cfg, sum, 1)
